@@ -195,11 +195,14 @@ func (d vDom) vResources(s vSnap) ClusterResources {
 		no := corev1.Node{ObjectMeta: metav1.ObjectMeta{Name: n.Name, Labels: map[string]string{"zone": n.Zone}}}
 		for _, a := range n.Addrs {
 			t := corev1.NodeInternalIP
-			if a.T == "ext" {
+			addr := vSpell(d.vNodeIP(a), a.Sp == "mapped")
+			switch a.T {
+			case "ext":
 				t = corev1.NodeExternalIP
+			case "host":
+				t, addr = corev1.NodeHostName, n.Name+".example.org"
 			}
-			no.Status.Addresses = append(no.Status.Addresses,
-				corev1.NodeAddress{Type: t, Address: vSpell(d.vNodeIP(a), a.Sp == "mapped")})
+			no.Status.Addresses = append(no.Status.Addresses, corev1.NodeAddress{Type: t, Address: addr})
 		}
 		r.Nodes = append(r.Nodes, no)
 	}
